@@ -22,10 +22,27 @@ def jvalue(v):
     return v
 
 
+def _isint(x):
+    return isinstance(x, int) and not isinstance(x, bool)
+
+
+def malformed(o):
+    """an outcome no correct implementation reports (whatever the declaration): an end offset or an error-stack offset that is not an integer"""
+    if not isinstance(o, dict):
+        return None
+    if 'ok' in o and 'end' in o and not _isint(o['end']):
+        return f"a successful unpack reports the end offset {o['end']!r}"
+    if 'err' in o and any(not _isint(e[0]) for e in o.get('stack', [])):
+        return f"a PacketError carries the offsets {[e[0] for e in o['stack']]}"
+    return malformed(o.get('packed')) if isinstance(o.get('packed'), dict) else None
+
+
 def cq_outcome(o):
     """implementation outcome (impl_pkt) -> Gallina outcome"""
     if 'derived' in o:
         raise ValueError
+    if malformed(o):
+        return "OOther"        # never agrees with the model
     if 'err' in o:
         return f"(OErr {'true' if o['err'] == 'unpacking' else 'false'} {decl.cq_stack(o['stack'])})"
     if 'exc' in o:
@@ -192,6 +209,19 @@ def run_groups(groups, tag='g'):
         bad += parse_coq_list(outs[name])
     by_gid = {g.gid: g for g in groups}
     disagreements = []
+    for idx, r in enumerate(records):
+        o = r.get('outcome')
+        if malformed(o):
+            # implementation-only statement (no model needed): end offsets and error offsets are integers
+            disagreements.append(dict(kind='correspondence', index=idx, what=malformed(o),
+                                      classes="".join(b['src'] for b in by_gid[r['group']].blocks()),
+                                      case=dict(kind='bad-end', c=r.get('c'), raw=r['raw'].hex() if isinstance(r.get('raw'), bytes) else None,
+                                                offset=r.get('offset'), outcome=o)))
+            break
+    for r in records:       # the oracles see such an outcome as what it is: an exception-like result outside the contract
+        m = malformed(r.get('outcome'))
+        if m:
+            r['outcome'] = dict(exc='Malformed', msg=m, was=r['outcome'])
     for idx in bad:
         r = records[idx]
         g = by_gid[r['group']]
